@@ -1,12 +1,13 @@
 (* Properties_C13.v — records written to a random file read back exactly.
-   PARTIAL: proved for the byte-level heart of the codec -- STRING payloads of arbitrary bytes (line
-   breaks, '#', blanks, empty) and CHAR fields of all 256 codes survive the marking of line breaks, and
-   the marked form is line safe (which is what keeps logical records and physical lines apart).
-   The numeric text forms (INTEGER decimal, REAL with 17 significant digits read back by a correctly
-   rounded strtod), record and array framing, and the mismatch clause are compared with the
-   implementation on exhaustive small alphabets, all 256 codes in every field position, boundary and
-   random numbers and the record shapes of C07, in-session, after reopen and from a second process. *)
-From PE2 Require Import Codec Lemmas_Codec.
+   Proved for the whole codec on value trees of any shape and depth whose leaves are INTEGER, BOOLEAN, CHAR,
+   STRING, DATE and enumerated values (records of records, arrays inside records): load (dump v) = v, with
+   nothing left over, for every such value; every such value can be dumped; STRING payloads of arbitrary
+   bytes and CHAR fields of all 256 codes survive the marking of line breaks; the marked form is line safe.
+   PARTIAL (stated, not proved): REAL leaves -- the text form has 17 significant digits and is read back by a
+   correctly rounded strtod; that round trip is compared with the implementation on boundary and random
+   numbers.  Pointer fields are not stored (their dump is empty and they do not read back: the code's rule). *)
+From PE2 Require Import Codec Lemmas_Codec Lemmas_Numerals Lemmas_CodecTree.
+Local Open Scope Z_scope.
 
 Theorem C13_string_payload_roundtrip : forall s rest0,
   read_marked (List.length (mark_newlines s)) true ch_nul (mark_newlines s ++ rest0) [] = Some (s, rest0).
@@ -21,6 +22,43 @@ Theorem C13_char_field_roundtrip : forall c rest0 old,
   load (VChar old) (str_of_string "CHAR " ++ [c] ++ (if aeqb c ch_nl then [ch_hash] else []) ++ rest0) = (VChar c, rest0, true).
 Proof. exact char_field_exact. Qed.
 Print Assumptions C13_char_field_roundtrip.
+
+Theorem C13_record_roundtrip : forall v old dx, wf v -> shape old v -> dump v = Some dx -> load old dx = (v, [], true).
+Proof. exact record_roundtrip. Qed.
+Print Assumptions C13_record_roundtrip.
+
+(* inside a longer line: whatever follows the value (nothing, or a blank and more fields) is left untouched *)
+Theorem C13_value_roundtrip_in_context : forall v old dx rest, wf v -> shape old v -> dump v = Some dx ->
+  (rest = [] \/ exists t, rest = ch_space :: t) -> load old (dx ++ rest) = (v, rest, true).
+Proof. intros v old dx rest. exact (codec_exact (depth v) v (le_n _) old dx rest). Qed.
+Print Assumptions C13_value_roundtrip_in_context.
+
+Theorem C13_every_wellformed_value_is_written : forall v, wf v -> exists dx, dump v = Some dx.
+Proof. intros v. exact (wf_dumps (depth v) v (le_n _)). Qed.
+Print Assumptions C13_every_wellformed_value_is_written.
+
+Theorem C13_integer_field_roundtrip : forall z rest old, int64_min <= z <= int64_max -> no_leading_digit rest ->
+  load (VInt old) (str_of_string "INTEGER " ++ z_to_str z ++ rest) = (VInt z, rest, true).
+Proof. exact int_field_roundtrip. Qed.
+Print Assumptions C13_integer_field_roundtrip.
+
+Theorem C13_decimal_numeral_roundtrip : forall lo hi z rest, lo <= z <= hi -> no_leading_digit rest ->
+  rd_integer lo hi (z_to_str z ++ rest) = Some (z, rest).
+Proof. exact rd_integer_z_to_str. Qed.
+Print Assumptions C13_decimal_numeral_roundtrip.
+
+(* non-vacuity: a record holding a record, an array of records and every scalar kind meets the premises *)
+Definition c13_inner : vtree := VRec (str_of_string "Inner") [VInt (-42); VStr (str_of_string "two
+lines")] [].
+Definition c13_sample : vtree :=
+  VRec (str_of_string "Outer") [VInt 9223372036854775807; VBool true; VChar ch_nl; VDate 29 2 2024; VEnum (str_of_string "Col") 3 2; c13_inner]
+       [[c13_inner; c13_inner]; [VChar " "]].
+Example C13_sample_wellformed : wf c13_sample /\ shape c13_sample c13_sample /\
+  (match dump c13_sample with Some dx => match load c13_sample dx with (v, r, ok) => ok && match r with [] => true | _ => false end end | None => false end) = true.
+Proof.
+  split; [|split; [|vm_compute; reflexivity]]; cbn; unfold int64_min, int64_max, two63, two64, slen';
+  repeat split; try discriminate; try (left; discriminate); try lia; try reflexivity; auto.
+Qed.
 
 Example C13_examples :
   dump (VStr (str_of_string "a
